@@ -57,8 +57,8 @@ Section Logic.
   Variable dp : nat -> option nat.
   Variable ord : nat -> list gid.
 
-  Notation exec := (Binder.exec faults dp ord).
-  Notation step := (Binder.step faults dp).
+  Notation exec := (Binder.exec faults no_env dp ord).
+  Notation step := (Binder.step faults no_env dp).
 
   Lemma exec_bind {A B} (m : prog A) (f : A -> prog B) s :
     exec (bind m f) s = let '(s', a) := exec m s in exec (f a) s'.
@@ -134,7 +134,7 @@ Section Logic.
 
   (** ** What one API call does to the state *)
   Definition faulted (c : call) (s s' : state) (r : resp) : Prop :=
-    r = RFault /\ s_store s' = s_store s /\ s_nfail s' = S (s_nfail s)
+    (exists k, r = RErr k) /\ s_store s' = s_store s /\ s_nfail s' = S (s_nfail s)
     /\ (s_crashed s = true -> s_crashed s' = true)
     /\ (exists o, (o = FailO \/ o = CrashO) /\ s_log s' = (obs_of c, o) :: s_log s)
     /\ s_hist s' = node_obs (s_store s) :: s_hist s.
@@ -150,11 +150,11 @@ Section Logic.
     s_mem s' = s_mem s /\ s_mark s' = s_mark s /\ s_mark_end s' = s_mark_end s
     /\ (faulted c s s' r \/ reached c s s' r).
   Proof.
-    unfold Binder.step; intros H.
+    unfold Binder.step. cbn [no_env apply_env fold_left]. intros H.
     destruct (s_crashed s) eqn:Ec.
     - inversion H; subst; clear H. simpl. split; [reflexivity|]. split; [reflexivity|]. split; [reflexivity|].
       left. unfold faulted. simpl. rewrite Ec.
-      split; [reflexivity|]. split; [reflexivity|]. split; [reflexivity|]. split; [auto|].
+      split; [eexists; reflexivity|]. split; [reflexivity|]. split; [reflexivity|]. split; [auto|].
       split; [exists FailO; auto | reflexivity].
     - destruct (faults (s_idx s)) eqn:Ef.
       + destruct (do_call c (if is_watch c then dp (s_watches s) else None) (s_store s)) as [st' r'] eqn:Ed.
@@ -162,12 +162,37 @@ Section Logic.
         right. unfold reached. simpl. rewrite Ec. rewrite Ed. repeat (split; [reflexivity|]). reflexivity.
       + inversion H; subst; clear H. simpl. split; [reflexivity|]. split; [reflexivity|]. split; [reflexivity|].
         left. unfold faulted. simpl. rewrite Ec.
-        split; [reflexivity|]. split; [reflexivity|]. split; [reflexivity|]. split; [auto|].
+        split; [eexists; reflexivity|]. split; [reflexivity|]. split; [reflexivity|]. split; [auto|].
         split; [exists FailO; auto | reflexivity].
       + inversion H; subst; clear H. simpl. split; [reflexivity|]. split; [reflexivity|]. split; [reflexivity|].
         left. unfold faulted. simpl. rewrite Ec.
-        split; [reflexivity|]. split; [reflexivity|]. split; [reflexivity|]. split; [auto|].
+        split; [eexists; reflexivity|]. split; [reflexivity|]. split; [reflexivity|]. split; [auto|].
         split; [exists CrashO; auto | reflexivity].
+  Qed.
+
+  (** no call changes the consumer's UID *)
+  Lemma do_call_uid0 c ans st st' r : do_call c ans st = (st', r) -> p_uid (self st') = p_uid (self st).
+  Proof.
+    intros H. destruct c; cbn [do_call] in H;
+      repeat match type of H with
+             | context [if ?x then _ else _] => destruct x eqn:?
+             | context [match ?x with _ => _ end] => destruct x eqn:?
+             end; inversion H; subst; clear H; try reflexivity.
+    all: try (destruct x; reflexivity). all: try (destruct c; reflexivity).
+  Qed.
+
+  Lemma exec_uid {A} (p : prog A) : forall s, p_uid (self (s_store (fst (exec p s)))) = p_uid (self (s_store s)).
+  Proof.
+    induction p as [a | c k IH | k IH | m k IH | gs k IH | b k IH]; intros s; cbn [Binder.exec].
+    - reflexivity.
+    - destruct (step c s) as [s1 r1] eqn:E. rewrite IH.
+      destruct (step_spec _ _ _ _ E) as (_ & _ & _ & [Hf | Hr]).
+      + destruct Hf as (_ & -> & _). reflexivity.
+      + destruct Hr as (_ & _ & _ & Hd & _). exact (do_call_uid0 _ _ _ _ _ Hd).
+    - apply IH.
+    - rewrite IH. reflexivity.
+    - rewrite IH. reflexivity.
+    - rewrite IH. reflexivity.
   Qed.
 End Logic.
 
@@ -176,7 +201,7 @@ End Logic.
 (** what never changes about the consumer while the binder runs *)
 Definition base (st : store) : Prop :=
   self_alive st = true /\ p_name (self st) = 0 /\ p_rsv (self st) = false /\ p_phase (self st) = PhPending
-  /\ Forall (fun p => p_name p <> 0) (others st).
+  /\ Forall (fun p => p_name p <> 0) (others st) /\ p_term (self st) = false.
 
 (** C11.2 as a state invariant: the consumer's server-side node was 0 or 1 after
     every call so far, the number of successful binding calls equals the
@@ -189,7 +214,7 @@ Definition hist_ok (s : state) : Prop :=
 
 Definition G (s : state) : Prop := base (s_store s) /\ hist_ok s.
 
-Definition not_bind (c : call) : Prop := match c with ABind _ => False | _ => True end.
+Definition not_bind (c : call) : Prop := match c with ABind _ _ => False | _ => True end.
 
 Lemma obs_not_bind c o : not_bind c -> is_bind_ok (obs_of c, o) = false /\ is_bind_elsewhere (obs_of c, o) = false.
 Proof. destruct c; simpl; intros H; try contradiction; auto. Qed.
@@ -198,7 +223,7 @@ Lemma binds_cons e l : binds (e :: l) = (if is_bind_ok e then 1 else 0) + binds 
 Proof. unfold binds. cbn [filter]. destruct (is_bind_ok e); reflexivity. Qed.
 
 Lemma G_faulted c s s' r :
-  G s -> c <> ABind false -> faulted c s s' r -> G s'.
+  G s -> (forall u, c <> ABind false u) -> faulted c s s' r -> G s'.
 Proof.
   intros (Hb & Hh & Hbi & He & Hn) Hc (Hr & Hst & _ & _ & (o & Ho & Hlog) & Hhist).
   split.
@@ -209,7 +234,7 @@ Proof.
       assert (is_bind_ok (obs_of c, o) = false) as ->; [| exact Hbi].
       destruct c; simpl; auto; destruct Ho; subst; reflexivity.
     + cbn [existsb]. rewrite He. rewrite orb_false_r.
-      destruct c; simpl; auto. destruct selected; auto. congruence.
+      destruct c; simpl; auto. destruct selected; auto. exfalso. exact (Hc uid eq_refl).
     + exact Hn.
 Qed.
 
@@ -273,7 +298,7 @@ Definition calm (p : pod) : Prop := p_rsv p = true \/ p_phase p <> PhRunning.
 
 Lemma all_pods_okp st : base st -> Forall okp (all_pods st).
 Proof.
-  intros (Ha & Hn & Hr & Hp & Ho). unfold all_pods. rewrite Ha.
+  intros (Ha & Hn & Hr & Hp & Ho & Ht). unfold all_pods. rewrite Ha.
   apply Forall_app. split; [| apply Forall_app; split].
   - apply Forall_forall. intros p Hp'. apply filter_In in Hp' as (Hi & _).
     rewrite Forall_forall in Ho. intros E. exfalso. apply (Ho p Hi E).
@@ -284,7 +309,7 @@ Qed.
 
 Lemma all_pods_calm st : base st -> rsv_only st -> Forall calm (all_pods st).
 Proof.
-  intros (Ha & Hn & Hr & Hp & Ho) Hro. unfold all_pods. rewrite Ha.
+  intros (Ha & Hn & Hr & Hp & Ho & Ht) Hro. unfold all_pods. rewrite Ha.
   unfold rsv_only in Hro. rewrite Forall_forall in Hro.
   apply Forall_app. split; [| apply Forall_app; split].
   - apply Forall_forall. intros p Hp'. apply filter_In in Hp' as (Hi & _). left. auto.
@@ -299,14 +324,14 @@ Section Sync.
   Variable faults : nat -> fault.
   Variable dp : nat -> option nat.
   Variable ord : nat -> list gid.
-  Notation exec := (Binder.exec faults dp ord).
+  Notation exec := (Binder.exec faults no_env dp ord).
 
   Ltac api E :=
     cbn [Binder.exec];
     match goal with
-    | |- context [Binder.step ?f ?d ?c ?s] =>
+    | |- context [Binder.step ?f ?e ?d ?c ?s] =>
         let s1 := fresh "s1" in let r1 := fresh "r1" in
-        destruct (Binder.step f d c s) as [s1 r1] eqn:E
+        destruct (Binder.step f e d c s) as [s1 r1] eqn:E
     end.
 
   Definition sync_post (live : Prop) (s s' : state) (r : bool) : Prop :=
@@ -314,7 +339,7 @@ Section Sync.
 
   (** deleting another pod by name *)
   Lemma delete_other n rf s s1 r1 :
-    G s -> n <> 0 -> Binder.step faults dp (ADeletePod n rf) s = (s1, r1) ->
+    G s -> n <> 0 -> Binder.step faults no_env dp (ADeletePod n rf) s = (s1, r1) ->
     G s1 /\ only_others s s1
     /\ (s_nfail s1 = s_nfail s -> r1 = ROk \/ r1 = RNotFound).
   Proof.
@@ -325,7 +350,7 @@ Section Sync.
       cbn [do_call is_watch] in Hd. apply Nat.eqb_neq in Hn. rewrite Hn in Hd.
       destruct (has_pod n (others (s_store s))) eqn:Eh; inversion Hd; subst; clear Hd.
       + assert (Hb' : base (s_store s1)).
-        { rewrite <- H0. destruct HG as ((Ha & Hn0 & Hrs & Hp & Ho) & _). repeat split; auto. simpl.
+        { rewrite <- H0. destruct HG as ((Ha & Hn0 & Hrs & Hp & Ho & Ht) & _). repeat split; auto. simpl.
           unfold del_pod. apply Forall_filter. exact Ho. }
         split.
         * eapply G_reached; eauto; [exact I | rewrite <- H0; reflexivity].
@@ -368,7 +393,7 @@ Section Sync.
   Proof.
     intros HG Hn. unfold delete_rsv. api E.
     destruct (delete_other _ _ _ _ _ HG Hn E) as (HG1 & Hoo & Hlive).
-    destruct r1; cbn [Binder.exec fst snd]; (split; [exact HG1 |]; split; [exact Hoo |]);
+    destruct r1 as [| k | | | | | | |]; try destruct k; cbn [Binder.exec fst snd]; (split; [exact HG1 |]; split; [exact Hoo |]);
       intros Hnf _; destruct (Hlive Hnf); congruence.
   Qed.
 
@@ -411,9 +436,9 @@ Section Sync.
   Qed.
 
   Lemma list_call l s s1 r1 :
-    G s -> Binder.step faults dp (AList l) s = (s1, r1) ->
+    G s -> Binder.step faults no_env dp (AList l) s = (s1, r1) ->
     G s1 /\ only_others s s1
-    /\ ((r1 = RFault /\ s_nfail s1 = S (s_nfail s))
+    /\ (((exists k, r1 = RErr k) /\ s_nfail s1 = S (s_nfail s))
         \/ (r1 = RPods (filter (selects l) (all_pods (s_store s))) /\ s_store s1 = s_store s
             /\ s_nfail s1 = s_nfail s)).
   Proof.
@@ -431,10 +456,10 @@ Section Sync.
     G s -> sync_post (rsv_only (s_store s)) s (fst (exec (sync_group g) s)) (snd (exec (sync_group g) s)).
   Proof.
     intros HG. unfold sync_group. api E1.
-    destruct (list_call _ _ _ _ HG E1) as (HG1 & Ho1 & [(-> & Hn1) | (-> & Hs1 & Hn1)]).
+    destruct (list_call _ _ _ _ HG E1) as (HG1 & Ho1 & [((k1 & ->) & Hn1) | (-> & Hs1 & Hn1)]).
     { cbn [Binder.exec fst snd]. split; [exact HG1 |]. split; [exact Ho1 |]. intros; lia. }
     api E2.
-    destruct (list_call _ _ _ _ HG1 E2) as (HG2 & Ho2 & [(-> & Hn2) | (-> & Hs2 & Hn2)]).
+    destruct (list_call _ _ _ _ HG1 E2) as (HG2 & Ho2 & [((k2 & ->) & Hn2) | (-> & Hs2 & Hn2)]).
     { cbn [Binder.exec fst snd]. split; [exact HG2 |]. split; [eapply only_others_trans; eauto |]. intros; lia. }
     rewrite Hs1.
     set (ps := filter (selects (LGroup g)) (all_pods (s_store s)) ++ filter (selects (LMulti g)) (all_pods (s_store s))).
@@ -470,10 +495,10 @@ Section Sync.
     G s -> sync_post (rsv_only (s_store s)) s (fst (exec sync_for_node s)) (snd (exec sync_for_node s)).
   Proof.
     intros HG. unfold sync_for_node. api E1.
-    destruct (list_call _ _ _ _ HG E1) as (HG1 & Ho1 & [(-> & Hn1) | (-> & Hs1 & Hn1)]).
+    destruct (list_call _ _ _ _ HG E1) as (HG1 & Ho1 & [((k1 & ->) & Hn1) | (-> & Hs1 & Hn1)]).
     { cbn [Binder.exec fst snd]. split; [exact HG1 |]. split; [exact Ho1 |]. intros; lia. }
     cbn [Binder.exec].
-    match goal with |- context [Binder.exec _ _ _ (sync_each ?gs) ?st] => set (s2 := st); set (gs0 := gs) end.
+    match goal with |- context [Binder.exec _ _ _ _ (sync_each ?gs) ?st] => set (s2 := st); set (gs0 := gs) end.
     assert (HG2 : G s2) by (eapply G_ext; [| | | exact HG1]; reflexivity).
     assert (Ho2 : only_others s1 s2).
     { unfold only_others, s2. simpl. repeat split; auto using incl_refl. }
